@@ -307,6 +307,9 @@ def cases(tier, seed):
     for size in (0, 10, 4095, 65535, 65536, 65537, 131072, 131077, 200000):
         for opt in ("default", "overwrite", "existing_unchanged"):
             yield {"k": "writetable", "size": size, "opt": opt}
+            if size in (10, 4095, 65536):
+                # text with characters that take several bytes in the file
+                yield {"k": "writetable", "size": size, "opt": opt, "nonascii": 1}
     # (h) a converter that fails for some tex files, fast and slow flows
     for nfiles in (2, 3, 4):
         for failmask in range(1, 1 << nfiles):
@@ -1225,6 +1228,9 @@ def run_writetable(r, obs):
     size, opt = r["size"], r["opt"]
     obs.nontrivial = True
     new = _text(size)
+    if r.get("nonascii"):
+        new = ("\u00b5m, 20 \u00b0C, caf\u00e9 \u2192 \u2713\n" + new)[:max(size, 12)]
+        size = len(new)
     relations = {
         "equal": new,
         "existing-is-strict-prefix": new[:max(0, size - 7)],
@@ -1514,3 +1520,4 @@ RULE += (' Added: tables - RenderLaTeX(select_data=user selector, from_data on/o
          '-> Write over 1..3 table values whose contexts have no output part (or an empty / '
          'partial one) interleaved with unselected values, three runs (same, same, one table '
          'changed): own name, own content, changed flag, distinct context.output objects.')
+RULE += (' Added: Write of text with non-ASCII characters over an existing file (same relations).')
